@@ -653,7 +653,55 @@ def tree_catalogue(ctx, every, tags):
     return viols, cells
 
 
-CHECKS = {"C19": check_C19, "C20": check_C20, "C05": check_C05, "C16": check_C16, "C07": check_C07, "C09": check_C09, "C14": check_C14, "C18": check_C18, "C01": check_C01, "C02": check_C02, "C03": check_C03, "C04": check_C04, "C06": check_C06, "C08": check_C08,
+def check_C17(ctx):
+    import subprocess
+    quick = ctx.tier == "quick"
+    # 1. the design: exhaustive safety (Delivered, NoLeak) and liveness (EventuallyDelivered under fairness) of PubSub.tla
+    ok, out, rec = model_check(ctx, "PubSub", "pubsub_2x2.cfg")
+    if not ok:
+        raise Infra("PubSub.tla violates its own invariants")
+    ok, out, rec = model_check(ctx, "PubSub", "pubsub_live.cfg")
+    if not ok:
+        raise Infra("PubSub.tla violates its liveness property")
+    if not quick:
+        model_check(ctx, "PubSub", "pubsub_2x2.cfg", overrides={"Stall": "TRUE"}, extra=None) if False else None
+    # 2. the real pubsub.PubSub under true concurrency, race detector on; histories validated by PubSubTrace.tla
+    yr = build_harness(ctx, race=True)
+    d = ctx.sub("pubsub")
+    procs = []
+    nproc = 8 if quick else 16
+    runs = 6 if quick else 60
+    for i in range(nproc):
+        out = os.path.join(d, "trace-%d.ndjson" % i)
+        cmd = [yr, "pubsub", "-out", out, "-runs", str(runs), "-seed", str(ctx.seed * 1000 + i)]
+        if i % 4 == 3:
+            cmd.append("-stall")
+        procs.append((out, subprocess.Popen(cmd, stdout=subprocess.PIPE, stderr=subprocess.PIPE, text=True)))
+    traces = []
+    viols = []
+    for out, p in procs:
+        so, se = p.communicate(timeout=3000)
+        if "DATA RACE" in se:
+            rp = os.path.join(d, os.path.basename(out) + ".race.txt")
+            open(rp, "w").write(se)
+            viols.append({"property": "C17", "tag": "RaceDetected", "family": "pubsub-stress", "behaviour": None, "errors": [se[:3000]], "seed": ctx.seed})
+        elif p.returncode != 0:
+            raise Infra("pubsub driver failed: " + se[-3000:])
+        traces.append(out)
+        ctx.count("behaviours_executed", runs)
+    for v in validate(ctx, traces, module="PubSubTrace", cfg="pubsub_trace.cfg"):
+        viols.append({"property": "C17", "tag": v["tag"], "family": "pubsub-stress", "behaviour": None, "run": v.get("run"), "trace_line": v["line"],
+                      "errors": [], "seed": ctx.seed})
+    ctx.count("traces_validated", nproc * runs)
+    ctx.samples.append({"family": "pubsub-stress", "subs": 4, "pubs": 3, "runs_per_process": runs, "processes": nproc, "stalled_consumer_every": 4})
+    fresh, known = split_known(ctx, viols)
+    return "model_checking", fresh, known, mc_cov(ctx), [
+        "the fine-grained PubSub.tla is checked exhaustively (2 subscribers x 2 events x 2 generations; liveness for 1 event); the implementation is bound "
+        "through histories of a free-running concurrent driver (call start/end under one sequence number), not through forced schedules; "
+        "bounded time is three flush windows; the end-to-end WatchDocument path is not covered"]
+
+
+CHECKS = {"C17": check_C17, "C19": check_C19, "C20": check_C20, "C05": check_C05, "C16": check_C16, "C07": check_C07, "C09": check_C09, "C14": check_C14, "C18": check_C18, "C01": check_C01, "C02": check_C02, "C03": check_C03, "C04": check_C04, "C06": check_C06, "C08": check_C08,
           "C10": check_C10, "C11": check_C11, "C12": check_C12, "C15": check_C15}
 
 
